@@ -14,6 +14,9 @@ the new solver without protocol).
 * the code as it is, **every history**: `C11_net_config` (state: `C11_net_config_state`),
   `C11_reported_regimen_applied`, `C11_simulate_never_raises`, `C11_copy_same`, `C11_copy_independent`,
   `C11_flag_matches_solver`, `C11_admin_rejects_missing_outputs`;
+* the sensitivity setting, **every state and every history**: `C11_only_enable_switches_on`, `C11_stays_off`,
+  `C11_disable_switches_off`, `C11_enable_switches_on`, `C11_fix_keeps_sens_setting`,
+  `C11_disable_then_stays_off` (also through the wrapper whose parameters are all fixed);
 * the net configuration is what a fresh object reaches by the canonical calls: `C11_canonical_*`;
 * before bcb3fc2: one `…_counterexample` per defect class, and `C11_legacy_net_config_partial` (the old
   code already had the property on `WellOrdered` histories);
@@ -575,5 +578,237 @@ theorem C11_flag_matches_solver_legacy (ops : List Op) : FlagOK (runLegacy b (in
     | nil => intro o h; exact h
     | cons op ops ih => intro o h; exact ih _ (flag_stepLegacy b o op h)
   exact this ops _ rfl
+
+/-! ## the sensitivity setting is changed by `enable_sensitivities` only
+
+State theorems (every hidden state, reachable or not) about `has_sensitivities()` of the outermost object,
+in particular through the wrapper whose parameters are all fixed, where the wrapped model's sensitivities
+are off and the flag `_empty_sensitivities` stands for "enabled". -/
+
+/-- the calls that may switch sensitivities on: `enable_sensitivities(True, …)` -/
+def enablesSens : Op → Bool
+  | .enableSens true _ => true
+  | _ => false
+
+theorem hasSens_enableSensM_off (s : MState) (names) : (enableSensM s false names).1.hasSens = false := by
+  unfold enableSensM
+  simp only [Bool.not_false, if_true, Bool.false_or]
+  cases h : s.hasSens <;> simp [h]
+
+theorem hasSens_enableSensM_on (s : MState) (names) (h : (enableSensM s true names).2 = none) :
+    (enableSensM s true names).1.hasSens = true := by
+  unfold enableSensM at h ⊢
+  simp only [Bool.not_true, Bool.false_eq_true, if_false, Bool.true_or, if_true] at h ⊢
+  split_ifs at h ⊢
+  rfl
+
+theorem hasSens_setOutputsM (s : MState) (outs) (h : s.hasSens = false) :
+    (setOutputsM b s outs).1.hasSens = false := by
+  unfold setOutputsM
+  simp only []
+  split
+  · exact h
+  · exact hasSens_enableSensM_off _ _
+
+
+theorem hasSens_setAdminM (s : MState) (a) (h : s.hasSens = false) : (setAdminM b s a).1.hasSens = false := by
+  unfold setAdminM
+  split
+  · exact h
+  · split
+    · exact h
+    · rfl
+
+theorem hasSensR_enableSensR_off (o : MState) (r : Red) :
+    hasSensR (enableSensR o r false).1.1 (enableSensR o r false).1.2 = false := by
+  simp [enableSensR, hasSensR, hasSens_enableSensM_off]
+
+theorem hasSensR_enableSensR_on (o : MState) (r : Red) (h : (enableSensR o r true).2 = none) :
+    hasSensR (enableSensR o r true).1.1 (enableSensR o r true).1.2 = true := by
+  unfold enableSensR at h ⊢
+  simp only [Bool.not_true, Bool.false_eq_true, if_false] at h ⊢
+  split_ifs at h ⊢
+  · simp [hasSensR]
+  · simp [hasSensR, hasSens_enableSensM_on _ _ h]
+
+/-- **every state**: a call that is not `enable_sensitivities(True, …)` never switches sensitivities on —
+whatever the hidden state (solver, tables, mask, flag) is -/
+theorem C11_only_enable_switches_on (o : Obj) (op : Op) (hop : enablesSens op = false)
+    (h : hasSensO o = false) : hasSensO (step b o op).1 = false := by
+  obtain ⟨m, r⟩ := o
+  cases r with
+  | none =>
+    simp only [hasSensO] at h
+    cases op with
+    | wrap =>
+      simp only [step]
+      cases hw : wrapM m with
+      | none => simpa [hasSensO] using h
+      | some r =>
+        unfold wrapM at hw
+        cases hp : parametersM m with
+        | none => simp [hp] at hw
+        | some ns =>
+          simp only [hp, Option.map_some, Option.some.injEq] at hw
+          subst hw
+          simp [hasSensO, hasSensR, h]
+    | setAdmin a =>
+      simp only [step, stepPlain, hasSensO]
+      split_ifs
+      · exact h
+      · exact hasSens_setAdminM b m a h
+    | setRegimen x =>
+      simp only [step, stepPlain, hasSensO, setRegimenM]
+      split_ifs
+      · exact h
+      · split <;> exact h
+    | setOutputs outs => exact hasSens_setOutputsM b m outs h
+    | setParamNames names => exact h
+    | setOutputNames names => exact h
+    | enableSens on names =>
+      cases on with
+      | true => simp [enablesSens] at hop
+      | false => exact hasSens_enableSensM_off m names
+    | fix d => exact h
+    | copy => rfl
+  | some r =>
+    simp only [hasSensO, hasSensR, Bool.or_eq_false_iff] at h
+    obtain ⟨h1, h2⟩ := h
+    cases op with
+    | wrap => simp [step, hasSensO, hasSensR, h1, h2]
+    | setAdmin a => simp [step, hasSensO, hasSensR, h1, h2]
+    | setRegimen x =>
+      simp only [step, setRegimenM]
+      split_ifs
+      · simp [hasSensO, hasSensR, h1, h2]
+      · split <;> simp [hasSensO, hasSensR, h1, h2]
+    | setOutputs outs =>
+      simp only [step, hasSensO, hasSensR]
+      have := hasSens_setOutputsM b m outs h2
+      cases he : (setOutputsM b m outs).2 <;> simp [this, h1]
+    | setParamNames names =>
+      simp only [step]
+      split
+      · simp [hasSensO, hasSensR, h1, h2]
+      · split <;> simp [hasSensO, hasSensR, h1, h2]
+    | setOutputNames names => simp [step, hasSensO, hasSensR, h1, h2]
+    | enableSens on names =>
+      cases on with
+      | true => simp [enablesSens] at hop
+      | false =>
+        cases names with
+        | some ns => simp [step, hasSensO, hasSensR, h1, h2]
+        | none => exact hasSensR_enableSensR_off m r
+    | fix d =>
+      simp only [step, fixR, hasSensR, h1, h2, Bool.or_self, Bool.false_eq_true, if_false, hasSensO]
+    | copy => simp [step, hasSensO, hasSensR, copyM]
+
+
+/-- … so once sensitivities are off they stay off through **every history** of other calls (fixing, releasing,
+renaming, regimens, outputs, routes, wrapping, copying, calls that raise), from every state -/
+theorem C11_stays_off (ops : List Op) (hops : ∀ op ∈ ops, enablesSens op = false) :
+    ∀ o : Obj, hasSensO o = false → hasSensO (run b o ops) = false := by
+  induction ops with
+  | nil => intro o h; exact h
+  | cons op ops ih =>
+    intro o h
+    simp only [run]
+    exact ih (fun x hx => hops x (List.mem_cons_of_mem _ hx)) _
+      (C11_only_enable_switches_on b o op (hops op List.mem_cons_self) h)
+
+/-- **every state**: an accepted `enable_sensitivities(False)` leaves sensitivities off — also on a wrapper
+whose parameters are all fixed (the flag `_empty_sensitivities` is cleared on this branch too) -/
+theorem C11_disable_switches_off (o : Obj) (names) (hok : (step b o (.enableSens false names)).2 = none) :
+    hasSensO (step b o (.enableSens false names)).1 = false := by
+  obtain ⟨m, r⟩ := o
+  cases r with
+  | none => exact hasSens_enableSensM_off m names
+  | some r =>
+    cases names with
+    | some ns => simp [step] at hok
+    | none => exact hasSensR_enableSensR_off m r
+
+/-- **every state**: an accepted `enable_sensitivities(True, …)` leaves them on — through the wrapper with
+no free parameter as well (there the wrapped model's are off and the flag stands for them) -/
+theorem C11_enable_switches_on (o : Obj) (names) (hok : (step b o (.enableSens true names)).2 = none) :
+    hasSensO (step b o (.enableSens true names)).1 = true := by
+  obtain ⟨m, r⟩ := o
+  cases r with
+  | none => exact hasSens_enableSensM_on m names hok
+  | some r =>
+    cases names with
+    | some ns => simp [step] at hok
+    | none => exact hasSensR_enableSensR_on m r hok
+
+/-- **every state**: an accepted `fix_parameters` (fixing, releasing, both, everything, nothing) keeps the
+sensitivity setting -/
+theorem C11_fix_keeps_sens_setting (o : Obj) (d) (hok : (step b o (.fix d)).2 = none) :
+    hasSensO (step b o (.fix d)).1 = hasSensO o := by
+  obtain ⟨m, r⟩ := o
+  cases r with
+  | none => rfl
+  | some r =>
+    simp only [step, fixR, hasSensO] at hok ⊢
+    have hflag : hasSensR m { r with mask := (fixMask r.names r.nParams r.mask r.values d).1,
+                                     values := (fixMask r.names r.nParams r.mask r.values d).2 }
+        = hasSensR m r := rfl
+    rw [hflag] at hok ⊢
+    cases hs : hasSensR m r with
+    | false => simp only [hs, Bool.false_eq_true, if_false]; exact hs
+    | true =>
+      simp only [hs, if_true] at hok ⊢
+      exact hasSensR_enableSensR_on m _ hok
+
+/-- **disable, then anything but enabling**: the history of the missed class — whatever state the object
+is in (every parameter fixed and sensitivities "enabled" included), after `enable_sensitivities(False)` and
+any further calls other than `enable_sensitivities(True)` the object reports no sensitivities and an empty
+time grid returns no sensitivity block -/
+theorem C11_disable_then_stays_off (o : Obj) (names) (ops : List Op)
+    (hok : (step b o (.enableSens false names)).2 = none) (hops : ∀ op ∈ ops, enablesSens op = false) :
+    (observe b (run b o (.enableSens false names :: ops))).hasSens = false ∧
+      ∀ x, (observe b (run b o (.enableSens false names :: ops))).emptyGrid = some x → x.2 = none := by
+  have h : hasSensO (run b o (.enableSens false names :: ops)) = false :=
+    C11_stays_off b ops hops _ (C11_disable_switches_off b o names hok)
+  refine ⟨h, ?_⟩
+  intro x hx
+  generalize run b o (.enableSens false names :: ops) = o' at h hx
+  obtain ⟨m, r⟩ := o'
+  simp only [observe, simulateEmptyO] at hx
+  have hm : ∀ args y, simulateEmptyM b m args = some y → m.hasSens = false → y.2 = none := by
+    intro args y hy hf
+    unfold simulateEmptyM at hy
+    simp only [] at hy
+    repeat' (first | split at hy | cases hy)
+    all_goals simp_all
+  cases r with
+  | none =>
+    simp only [hasSensO] at h
+    split at hx
+    · cases hx
+    · exact hm _ _ hx h
+  | some r =>
+    simp only [hasSensO, hasSensR, Bool.or_eq_false_iff] at h
+    split at hx
+    · cases hx
+    · simp only [h.1, Bool.false_eq_true, if_false] at hx
+      exact hm _ _ hx h.2
+
+
+def releaseK : Op := .fix [("global.elimination_rate", none)]
+def allFixedOnOff : List Op := [.wrap, fixAll, .enableSens true none, .enableSens false none]
+
+/-- non-vacuity: every parameter of the one-compartment model fixed, sensitivities on (an empty block of
+sensitivities is returned), off again (none is returned), one parameter released (still none) -/
+example :
+    (obsNow [.wrap, fixAll, .enableSens true none]).hasSens = true ∧
+      (obsNow [.wrap, fixAll, .enableSens true none]).emptyGrid = some (1, some 0) ∧
+      (obsNow allFixedOnOff).hasSens = false ∧ (obsNow allFixedOnOff).emptyGrid = some (1, none) ∧
+      (obsNow (allFixedOnOff ++ [releaseK])).hasSens = false ∧
+      (obsNow (allFixedOnOff ++ [releaseK])).params = some ["global.elimination_rate"] ∧
+      (obsNow (allFixedOnOff ++ [releaseK])).emptyGrid = some (1, none) ∧
+      obsNow (allFixedOnOff ++ [releaseK]) = obsFresh (allFixedOnOff ++ [releaseK]) ∧
+      (obsNow [.wrap, .enableSens true none, fixAll]).emptyGrid = some (1, some 0) ∧
+      (obsNow [.wrap, .enableSens true none, fixAll, releaseK]).emptyGrid = some (1, some 1) := by
+  decide
 
 end ChiModel.MechConfig
